@@ -133,6 +133,8 @@ def corr_values(out, model, st, rng, built, mm, t_end):
             out.diff(f'{rt.stage} raised {type(rt.exc).__name__}: {rt.exc} (the model predicts a document)', case)
             continue
         doc = json.loads(rt.data.decode('utf-8'))
+        if isinstance(doc, list) and len(doc) == 1:
+            doc = doc[0]            # a single root may be written alone or as a one-element list
         src = rt.inst[0]
         st['value_documents'] += 1
         if kind == 's':
